@@ -126,17 +126,18 @@ where
 
 /-- `int(text)` (base 10) restricted to ASCII: optional blanks around, optional sign, digits with
 single underscores.  `none` = `ValueError`. -/
+def splitSign : Str → Bool × Str
+  | '-' :: r => (true, r)
+  | '+' :: r => (false, r)
+  | r => (false, r)
+
 def pyIntBase10 (s : Str) : Option Int :=
-  let t := strip s
-  let (neg, body) := match t with
-    | '-' :: r => (true, r)
-    | '+' :: r => (false, r)
-    | r => (false, r)
-  match dropDigitUnderscores isAsciiDigit body with
+  let p := splitSign (strip s)
+  match dropDigitUnderscores isAsciiDigit p.2 with
   | none => none
   | some ds =>
     let n := parseDigits (ds.map digitVal)
-    some (if neg then - (n : Int) else (n : Int))
+    some (if p.1 then - (n : Int) else (n : Int))
 
 def isOctDigit (c : Char) : Bool := '0' ≤ c && c ≤ '7'
 def isBinDigit (c : Char) : Bool := c == '0' || c == '1'
